@@ -27,6 +27,20 @@ def main():
             rc = mod.replay(ctx, a.replay)
             sys.exit(rc)
         mod.run(ctx)
+        unknown = [f for f in ctx.failures if not ctx._known(f)]
+        if (ctx.proof_problems or ctx.disagreements) and not unknown and a.tier == "quick":
+            # the property is no longer shown to hold but no failing input was met: search further (6x the
+            # cases, another seed) before reporting no-failing-input-found
+            ctx2 = common.Ctx(pid, a.tier, seed + 1)
+            ctx2.scale, ctx2.skip_theorems = 6, True
+            try:
+                mod.run(ctx2)
+            except BaseException as e:  # noqa
+                ctx.notes.append("enlarged search stopped: %s: %s" % (type(e).__name__, e))
+            ctx.failures += ctx2.failures
+            ctx.evaluations += ctx2.evaluations
+            ctx.nontrivial |= ctx2.nontrivial
+            ctx.extra["enlarged_search"] = {"evaluations": ctx2.evaluations, "oracle_failures": len(ctx2.failures)}
     except SystemExit:
         raise
     except BaseException as e:  # the machinery itself broke: the property is not shown to hold
